@@ -37,6 +37,8 @@ type C17Case struct {
 	// LaggingCache: the newest revision of the set is not yet in the API server's watch cache: a list that allows a
 	// cached answer (resourceVersion "0") does not show it, a consistent list does
 	LaggingCache bool `json:"lagging_cache,omitempty"`
+	// ManyRevs: Revs is beyond one hundred
+	ManyRevs bool `json:"many_revs,omitempty"`
 	// Collision: the built-in set's status.collisionCount (nil when 0 is drawn with HasCollision false)
 	HasCollision bool  `json:"has_collision,omitempty"`
 	Collision    int32 `json:"collision,omitempty"`
@@ -84,6 +86,14 @@ func genC17(rt *rapid.T) C17Case {
 		}
 	}
 	c.SecondKind = rapid.SampledFrom(c17Kinds).Draw(rt, "secondKind")
+	if rapid.IntRange(0, 24).Draw(rt, "manyRevs") == 0 {
+		// a long history (revisionHistoryLimit is the user's to set): more revisions than a chunked list returns at once
+		c.ManyRevs = true
+		c.Revs = 101 + rapid.IntRange(0, 40).Draw(rt, "manyRevsN")
+		c.All = false
+		c.Positions = []int{rapid.IntRange(0, 999).Draw(rt, "manyPos")}
+		c.Retries = 1
+	}
 	return c
 }
 
@@ -93,7 +103,7 @@ func (w *c17World) deferViolation(sig, format string, args ...interface{}) {
 	w.viol = append(w.viol, c17Violation{sig, fmt.Sprintf(format, args...)})
 }
 
-// laggingKube: a clientset whose ControllerRevision lists served "from the watch cache" (resourceVersion "0") miss
+// laggingKube (always in front of Upgrade): honours limit/continue on ControllerRevision lists, and is a clientset whose ControllerRevision lists served "from the watch cache" (resourceVersion "0") miss
 // one object that consistent lists show. The fake clientset does not hand list options to reactors, so the typed
 // client is wrapped.
 type laggingKube struct {
@@ -120,15 +130,41 @@ type laggingRevs struct {
 }
 
 func (r laggingRevs) List(ctx context.Context, opts metav1.ListOptions) (*appsv1.ControllerRevisionList, error) {
-	l, err := r.ControllerRevisionInterface.List(ctx, opts)
-	if err != nil || opts.ResourceVersion != "0" {
+	inner := opts
+	inner.Limit, inner.Continue = 0, ""
+	l, err := r.ControllerRevisionInterface.List(ctx, inner)
+	if err != nil {
 		return l, err
 	}
 	out := l.DeepCopy()
-	out.Items = nil
-	for _, it := range l.Items {
-		if it.Name != r.hide {
-			out.Items = append(out.Items, it)
+	if opts.ResourceVersion == "0" && r.hide != "" {
+		out.Items = nil
+		for _, it := range l.Items {
+			if it.Name != r.hide {
+				out.Items = append(out.Items, it)
+			}
+		}
+	}
+	// limit / continue as an API server serves them (the fake clientset ignores both): chunks in name order, a continue
+	// token while more remain, and remainingItemCount only for requests without a selector
+	if opts.Limit > 0 {
+		sort.Slice(out.Items, func(i, j int) bool { return out.Items[i].Name < out.Items[j].Name })
+		from := 0
+		if opts.Continue != "" {
+			if _, err := fmt.Sscanf(opts.Continue, "offset-%d", &from); err != nil || from > len(out.Items) {
+				return nil, apierrors.NewBadRequest("invalid continue token")
+			}
+		}
+		rest := out.Items[from:]
+		if int64(len(rest)) > opts.Limit {
+			out.Items = rest[:opts.Limit]
+			out.Continue = fmt.Sprintf("offset-%d", from+int(opts.Limit))
+			if opts.LabelSelector == "" && opts.FieldSelector == "" {
+				n := int64(len(rest)) - opts.Limit
+				out.RemainingItemCount = &n
+			}
+		} else {
+			out.Items = rest
 		}
 	}
 	return out, nil
@@ -432,9 +468,7 @@ func (w *c17World) attempt(rep Rep, faultAt, kind int, desc string) (done bool, 
 	}
 	actions, crashed, panicked, stack := c.RunLogged(func() {
 		var kube kubernetes.Interface = c.Kube()
-		if w.lagging != "" {
-			kube = laggingKube{Interface: kube, hide: w.lagging}
-		}
+		kube = laggingKube{Interface: kube, hide: w.lagging}
 		_, err = helper.Upgrade(context.TODO(), kube, c.PC(), cur)
 	})
 	c.Intercept = nil
